@@ -64,6 +64,9 @@ class Monitor(object):
     def on_crash(self, env, data):
         pass
 
+    def on_rerun(self, env, names, rejected, before):
+        pass
+
     def on_started(self, env, act):
         pass
 
@@ -106,6 +109,10 @@ class Policy(object):
         self.pause_as_paused = False
         self.cancel_as_canceled = False
         self.resume = True
+        self.rerun = None  # None | "default" | "explicit": one rerun request once the workflow has completed
+        self.rerun_steps = 4
+        self.rerun_ghost = False
+        self.rerun_ok = False  # re-executed actions succeed
         self.crash = False  # False | "bits" (every subset of the first crash_max boundaries) | "one" | "two"
         self.crash_max = 6
         self.order = True
@@ -154,6 +161,9 @@ class Env(object):
         self.extra_req_done = False
         self.ctl_done = False
         self.script = []
+        self.rerun_done = False
+        self.rerun_rejected = None
+        self.rerun_names = []
         self.offer_log = []
         self.cancel_from = None
         self.match_ctx = False
@@ -321,6 +331,59 @@ class Env(object):
             m.on_report(self, act, status, result)
         return act
 
+    def try_rerun(self):
+        """Ask for a rerun (default, or an explicit request set chosen bit by bit over the
+        executed task records plus, optionally, one that does not exist)."""
+        from orquesta import requests as rq
+
+        p = self.policy
+        self.rerun_done = True
+        self.render_output()
+        reqs = None
+        names = []
+        if p.rerun == "explicit":
+            seen = []
+            for e in self.c.workflow_state.sequence:
+                k = (e["id"], e["route"])
+                if e["id"] in ("fail", "noop", "continue", "retry") or k in seen:
+                    continue
+                seen.append(k)
+            reqs = []
+            for tid, route in seen:
+                if self.ch.flag("rr:%s/%d" % (tid, route)):
+                    reset = self.ch.flag("rr_reset:%s" % tid) if self.wf.has_items(tid) else False
+                    reqs.append(rq.TaskRerunRequest.new(tid, route, reset_items=reset))
+                    names.append("%s/%d%s" % (tid, route, "!" if reset else ""))
+            if p.rerun_ghost and self.ch.flag("rr:ghost"):
+                reqs.append(rq.TaskRerunRequest.new("ghost", 0))
+                names.append("ghost/0")
+            if not reqs:
+                reqs = None
+        self.rerun_names = names
+        self.log.append("RERUN:" + (",".join(names) if names else "default"))
+        before = self.snapshot()
+        self.rerun_before_status = self.status()
+        self.rerun_seq_len = len(self.c.workflow_state.sequence)
+        self.calls.append(["request_workflow_rerun", names])
+        try:
+            self.c.request_workflow_rerun(task_requests=reqs)
+            self.rerun_rejected = None
+        except (exc.InvalidTaskRerunRequest, exc.WorkflowIsActiveAndNotRerunableError) as e:
+            self.rerun_rejected = e
+            self.log[-1] += "!rejected"
+        except Exception as e:
+            self.violation("escape", "request_workflow_rerun(%s) raised %s: %s" % (names, type(e).__name__, e), call="request_workflow_rerun", exc=type(e).__name__)
+        for m in self.monitors:
+            m.on_rerun(self, names, self.rerun_rejected, before)
+        for m in self.monitors:
+            m.after_call(self, "request_workflow_rerun")
+        if self.rerun_rejected is not None:
+            return False
+        self.cancel_req = False
+        self.pause_req = False
+        self.offers()
+        return True
+
     def crash(self):
         """Persist and restore the conductor (the provider may reload after any event)."""
         data = self.api("serialize", self.c.serialize)
@@ -340,7 +403,9 @@ class Env(object):
     def choose_outcome(self, act):
         p = self.policy
         key = ("o:%s#%d" % (act.label(), act.visit)) if p.by_task else ("o%d" % self.step)
-        if len(p.statuses) == 2:
+        if self.rerun_done and p.rerun_ok:
+            status = S.SUCCEEDED
+        elif len(p.statuses) == 2:
             status = p.statuses[0] if self.ch.flag(key) else p.statuses[1]
         else:
             status = p.statuses[self.ch.pick(key, len(p.statuses))]
@@ -419,8 +484,13 @@ class Env(object):
                         continue
                 for m in self.monitors:
                     m.on_quiescent(self)
+                if p.rerun and not self.rerun_done and self.status() in COMPLETED and self.try_rerun():
+                    if self.inflight:
+                        continue
+                    for m in self.monitors:
+                        m.on_quiescent(self)
                 break
-            if self.step >= p.steps:
+            if self.step >= p.steps + (p.rerun_steps if self.rerun_done else 0):
                 break  # bound reached with actions still in flight: truncated history
             idx = self.ch.pick("r%d" % self.step, min(len(self.inflight), p.max_inflight)) if p.order else 0
             act = self.inflight[idx]
